@@ -120,6 +120,13 @@ func newVeFakeCluster(name string, count int32) *veFakeCluster {
 		if fd := md.Output().Fields().ByName("history_shard_count"); fd != nil {
 			out.Set(fd, protoreflect.ValueOfInt32(fc.count))
 		}
+		// DescribeNamespaceResponse-like: namespace_info.name := the namespace the cluster was asked about
+		if fd := md.Output().Fields().ByName("namespace_info"); fd != nil && fd.Message() != nil {
+			if nf := fd.Message().Fields().ByName("name"); nf != nil {
+				info := out.Mutable(fd).Message()
+				info.Set(nf, protoreflect.ValueOfString(strings.TrimPrefix(veGetString(in, "namespace"), "-")))
+			}
+		}
 		return stream.SendMsg(out)
 	}))
 	var err error
@@ -384,6 +391,9 @@ func TestVerifE2E(t *testing.T) {
 					resp = veGetString(out, "namespace")
 					if fd := md.Output().Fields().ByName("history_shard_count"); fd != nil {
 						resp = fmt.Sprintf("shards=%d", out.Get(fd).Int())
+					}
+					if fd := md.Output().Fields().ByName("namespace_info"); fd != nil && fd.Message() != nil && out.Has(fd) {
+						resp = "info:" + veGetString(out.Get(fd).Message(), "name")
 					}
 				}
 			}
